@@ -14,7 +14,7 @@ RULE = ("cases i < N_exh enumerate ALL operation histories of length <= L over 4
         "with alphabet add(k)/remove(k)/pop/clear; the rest are seeded random histories of 5-60 ops over 3-14 "
         "events with 1-4 distinct times, int/float/mixed/Duration(mixed units)/huge-int (> 2^53) time types; non-trivial = at least "
         "one successful removal of a non-minimum (interior) event followed by >= 2 pop_first; distinct = distinct "
-        "canonical (events, ops) hash; the first 8 (quick) / 63 (thorough) random cases put all events at one instant and create 300 .. 2^20 (thorough: 2^24) other events between the first and the second half of them")
+        "canonical (events, ops) hash; the first 8 (quick) / 63 (thorough) random cases put all events at one instant and create 300 .. 2^20 (thorough: 2^24) other events between the first and the second half of them; the next 24 (600) cases hold 130-600 events pending at once and shrink / grow the list several times across sizes 0..129")
 ASSUMPTIONS = ["an event is never added while it is already pending (the statement speaks of a set)",
                "times within one list are mutually comparable (no Duration/float mixes)"]
 
@@ -58,6 +58,33 @@ def gen_case(rng, tier, i):
             ops.append(list(ALPHA[j % len(ALPHA)]))
             j //= len(ALPHA)
         return {"kind": "int", "events": [list(e) for e in EXH_EVENTS], "ops": ops, "fam": "exh"}
+    nbig = 24 if tier == "quick" else 600
+    if i - nexh - len(GAPS[tier]) in range(nbig):
+        # many pending events at once (hundreds), growing and shrinking several times: thresholds on the size of the list
+        nev = rng.choice([130, 140, 200, 300, 520, 600])
+        times = rng.sample(range(0, 40), rng.randint(2, 12))
+        events = [[rng.choice(times), rng.choice([1, 5, 5, 10, 5])] for _ in range(nev)]
+        order = list(range(nev))
+        rng.shuffle(order)
+        ops = [["add", k] for k in order]
+        present = set(order)
+        for _ in range(rng.randint(2, 4)):
+            # shrink below a random size by pops and interior removes, then grow again
+            target = rng.choice([0, 5, 60, 100, 127, 128, 129])
+            while len(present) > target:
+                if rng.random() < 0.7:
+                    ops.append(["pop"])
+                    present.discard(min(present, key=lambda k: (events[k][0], -events[k][1], k)))
+                else:
+                    k = rng.choice(sorted(present))
+                    ops.append(["remove", k])
+                    present.discard(k)
+            back = [k for k in order if k not in present]
+            rng.shuffle(back)
+            for k in back[:rng.randint(1, len(back))]:
+                ops.append(["add", k])
+                present.add(k)
+        return {"kind": "int", "events": events, "ops": ops, "fam": "big"}
     kind = rng.choice(["int", "float", "mixed", "duration", "float", "int", "bigint"])
     nev = rng.randint(3, 14)
     ntimes = rng.randint(1, 4)
@@ -76,7 +103,7 @@ def gen_case(rng, tier, i):
         times = [rng.choice([[1, "min"], [60, "s"], [0.5, "h"], [30, "min"], [1800, "s"], [2, "s"], [2000, "ms"],
                              [0, "s"], [1, "day"], [0.1 + 0.2, "s"], [0.3, "s"], [300, "ms"], [0.005, "min"],
                              [1800.0000000000002, "s"]]) for _ in range(ntimes)]      # incl. times one ulp apart
-    prios = [1, 5, 5, 10, 5] if rng.random() < 0.6 else [1, 5, 0, 10, -2, 11, 0]     # any int is a priority, zero and negatives included
+    prios = rng.choice([[1, 5, 5, 10, 5]] * 5 + [[1, 5, 0, 10, -2, 11, 0]] * 3 + [[1000, 1000, 300, -50, -50, 7, 1000]] * 2)     # any int is a priority: zero, negatives and values beyond the interpreter's shared small ints included
     events = [[rng.choice(times), rng.choice(prios)] for _ in range(nev)]
     nops = rng.randint(5, 60)
     ops = []
@@ -162,7 +189,8 @@ def run_case(case, ctx):
                 SimEvent(0.0, tgt, "m")
             ctx.count("events_created_in_between_(creation_gaps)", case["gap"][1])
             ctx.seen("creation_gaps", str(case["gap"][1]))
-        evs.append(classes[k % len(classes)](_mk_time(case["kind"], t), tgt, "m", p))
+        # (int(str(p)): every event gets an int object of its own - equal priorities are equal values, not one shared object)
+        evs.append(classes[k % len(classes)](_mk_time(case["kind"], t), tgt, "m", int(str(p))))
     ids = [e.id for e in evs]
     if len(set(ids)) != len(ids) or ids != sorted(ids):
         ctx.viol("event-ids-not-unique-or-not-in-creation-order", {"ids": ids})
@@ -284,6 +312,10 @@ def run_case(case, ctx):
         cmp("is_empty", opi, real.is_empty(), len(model) == 0)
         if model:
             cmp("peek-order", opi, idx.get(id(real.peek_first()), -1), min(model, key=lambda q: key[q]))
+        if case["fam"] == "big" and opi % 97 and opi != len(case["ops"]) - 1:
+            if stop[0]:
+                return
+            continue            # (the full membership audit and the drain replay cost O(n^2) on hundreds of events)
         for k in range(len(evs)):
             if real.contains(evs[k]) != (k in model):
                 bad("contains", opi, k=k, want=k in model)
